@@ -327,7 +327,7 @@ to the ENTRY directory (never to the including file's directory) -/
 theorem includePatterns_spec (dir : List Char) : ∀ (items : List AItem) (pats : List (List Char)),
     includePatterns dir items = .ok pats →
     ∃ vs : List (List Char), items.map AItem.paramStr = vs.map some ∧
-      pats = vs.map (fun v => if isAbsPath v then v else joinPath dir v) := by
+      pats = vs.map (fun v => if isAbsPath v then v else joinPath (quoteGlobMeta dir) v) := by
   intro items
   induction items with
   | nil => intro pats h; simp only [includePatterns, Except.ok.injEq] at h; subst h; exact ⟨[], rfl, rfl⟩
